@@ -107,7 +107,7 @@ impl Database {
                                     );
                                     (
                                         pendding_conflict.last().unwrap().to_string(),
-                                        version + pendding_conflict.len() as i32,
+                                        version.saturating_add(pendding_conflict.len() as i32),
                                     )
                                 } else {
                                     (old_value.to_string(), old_version)
